@@ -599,6 +599,12 @@ class Gen:
             return ("arr", inner, kind)
         if c == "map":
             kt = ("prim", r.choice(KEY_PRIMS))
+            # a named alias of a scalar primitive is a legal key as well (the rule looks at the underlying type)
+            key_aliases = [n for n in avail if not pkg.find(n)[0].get("tparams") and pkg.find(n)[0]["kind"] == "alias"
+                           and self.canon(pkg, ("named", n, []))[0] == "prim" and self.canon(pkg, ("named", n, []))[1] in KEY_PRIMS]
+            if key_aliases and r.random() < 0.4:
+                kt = ("named", r.choice(key_aliases), [])
+                self.hit("map.key-through-alias")
             vt = self.gen_type(pkg, depth - 1, tparams, avail=avail)
             return ("map", kt, vt)
         if c == "union":
@@ -1158,6 +1164,40 @@ def nullable_package(namespace="Nul"):
         ("boxed", ("named", "Box", [("named", "Inner", [])]), True),
         ("aliased", ("named", "MaybeInner", []), True),
         ("tail", ("named", "MaybeIntAgain", []), False)]})
+    return pkg
+
+
+def untagged_unions_package(namespace="Unt", small=False):
+    """Unions of every ordered pair of types whose JSON representations differ (boolean, number, string, object, array):
+    NDJSON writes them without a tag and the reader recovers the case from the JSON type of the value alone - for both orders
+    of the cases, with and without a null case, as steps, stream items, record fields and vector elements."""
+    pkg = Package(namespace)
+    P = lambda n: ("prim", n)
+    pkg.defs.append({"kind": "record", "name": "URec", "tparams": [], "fields": [("a", P("int32")), ("b", P("string"))]})
+    pkg.defs.append({"kind": "enum", "name": "UEn", "flags": False, "base": None, "auto": True, "values": [("one", 0), ("two", 1)]})
+    reps = [("b", P("bool"), "boolean"), ("i", P("int32"), "number"), ("f", P("float64"), "number"), ("s", P("string"), "string"),
+            ("r", ("named", "URec", []), "object"), ("v", ("vec", P("int32"), None), "array")]
+    if not small:
+        reps += [("u", P("uint64"), "number"), ("e", ("named", "UEn", []), "string"), ("m", ("map", P("string"), P("int32")), "object")]
+    pairs = [(a, b) for a in reps for b in reps if a[2] != b[2]]
+    fields, steps = [], []
+    for k, (a, b) in enumerate(pairs):
+        u = ("union", False, [(None, a[1]), (None, b[1])]) if a[1][0] in ("prim", "named") and b[1][0] in ("prim", "named") else \
+            ("union", False, [(f"x{a[0]}{k}", a[1]), (f"y{b[0]}{k}", b[1])])
+        steps.append((f"p{a[0]}{b[0]}", u, True))
+        if k % 3 == 0:
+            un = ("union", True, list(u[2]))
+            fields.append((f"n{a[0]}{b[0]}", un))
+        if k % 3 == 1:
+            fields.append((f"w{a[0]}{b[0]}", ("vec", u, None)))
+    pkg.defs.append({"kind": "record", "name": "UFields", "tparams": [], "fields": fields})
+    half = len(steps) // 2
+    pkg.defs.append({"kind": "protocol", "name": "PUntA", "steps": steps[:half] + [("recs", ("named", "UFields", []), True)]})
+    pkg.defs.append({"kind": "protocol", "name": "PUntB", "steps": steps[half:]})
+    # three distinct kinds at once, every rotation
+    tri = [P("bool"), P("int32"), P("string")]
+    pkg.defs.append({"kind": "protocol", "name": "PUntC", "steps": [
+        (f"t{i}", ("union", i % 2 == 1, [(None, tri[i % 3]), (None, tri[(i + 1) % 3]), (None, tri[(i + 2) % 3])]), True) for i in range(3)]})
     return pkg
 
 
